@@ -463,7 +463,7 @@ theorem ok_startIterate (kv compr : Bool) (hst : StateOk P K st)
       | skip
     rename_i items hi
     simp only [StepRes.next.injEq] at h; rcases h with ⟨_, h2⟩; subst h2
-    exact ⟨hs.2, scopeOk_pushLoop _ _ hst.scope (loopOk_new compr (iterItems_ok hs.1 hi)), hst.caps,
+    exact ⟨hs.2, scopeOk_pushLoop _ _ hst.scope (loopClean_new compr (iterItems_ok hs.1 hi)), hst.caps,
       hst.out, hst.bbuf, hst.blocks⟩
 
 theorem ok_storeLocal (n : String) (hst : StateOk P K st) (h : stepStoreLocal n pc st = .next pc' st') :
@@ -474,7 +474,7 @@ theorem ok_storeLocal (n : String) (hst : StateOk P K st) (h : stepStoreLocal n 
   · rename_i l rest hl
     simp only [StepRes.next.injEq] at h; rcases h with ⟨_, h2⟩; subst h2
     exact hst.withScope (scopeOk_setTopLoop _ _ hst.scope
-      (loopOk_storeLocalName n (scopeOk_forLoops _ hst.scope l (by rw [hl]; simp))))
+      (loopClean_storeLocalName n (scopeOk_forLoops _ hst.scope l (by rw [hl]; simp))))
 
 theorem ok_iterate (t : Nat) (hst : StateOk P K st) (h : stepIterate t pc st = .next pc' st') :
     StateOk P K st' := by
@@ -487,7 +487,7 @@ theorem ok_iterate (t : Nat) (hst : StateOk P K st) (h : stepIterate t pc st = .
     · rename_i l' hi
       simp only [StepRes.next.injEq] at h; rcases h with ⟨_, h2⟩; subst h2
       exact hst.withScope (scopeOk_setTopLoop _ _ hst.scope
-        (loopOk_iterate (scopeOk_forLoops _ hst.scope l (by rw [hl]; simp)) hi))
+        (loopClean_iterate (scopeOk_forLoops _ hst.scope l (by rw [hl]; simp)) hi))
 
 theorem ok_storeDidNotIterate (hst : StateOk P K st) (h : stepStoreDidNotIterate pc st = .next pc' st') :
     StateOk P K st' := by
